@@ -161,6 +161,46 @@ def run(ctx):
     spb = tp.drivers('sp_bit', exact=True)
     ctx.ob('C25.sync', 'TxPipeline.sp_bit', len(spb) == 1 and spb[0].rhs.canon() == 'sync_pulse[0:1]', None,
            'sync bit is bit 0 of the walking-one register')
+    # ---------------------------------------------------------------- a stuffed bit at the very end of the packet is sent
+    # The data phase (output enabled, bits taken from the stuffer) is state_gray == 0b11.  When the stuffer announces
+    # that the NEXT bit time carries a stuffed 0 (o_will_stall), the pipeline must still be in the data phase in that
+    # next bit time -- also when the packet's data has just run out.  One-cycle truth table per FSM state in which the
+    # register can be 0b11 and whose transitions / writers mention o_will_stall: under every valuation with o_will_stall
+    # the next value of state_gray is 0b11 (the values it can hold in the state come from a forward dataflow).
+    from ..flow import reg_flow, TOP
+    from ..fsm import lit_atoms, assignments, holds
+    WS, SG = 'bitstuff.o_will_stall', 'state_gray'
+    tfsm = ctx.the_fsm(tp)
+    ctx.need(SG in tp.signals and tp.signals[SG].w == 2, 'TxPipeline phase register state_gray (2 bits)')
+    _, possible = reg_flow(tp, tfsm, SG)
+    sgd = sorted(tp.drivers(SG, exact=True), key=lambda a: a.order)
+    n_ws = 0
+    for S in tfsm.states:
+        here = [a for a in sgd if a.state is None or q.state_of(a) == S]
+        ats = set()
+        for it in here + list(tfsm.out_edges(S)):
+            for l in it.guard:
+                ats |= set(lit_atoms(l))
+        cur = possible.get(S) or set()
+        if WS not in ats or TOP in cur or 3 not in cur:
+            continue
+        n_ws += 1
+        bad = None
+        for asg in assignments(sorted(ats), {WS: True}):
+            fire = [a for a in here if holds(a.guard, asg)]
+            if fire:
+                r = fire[-1].rhs
+                nxt = {r.val & 3} if isinstance(r, E) and r.op == 'const' else {TOP}
+            else:
+                nxt = set(cur)
+            if nxt != {3} and bad is None:
+                bad = ({k: v for k, v in asg.items() if k != WS}, sorted(map(str, nxt)), fire[-1] if fire else None)
+        ctx.ob('C25.stuffed-bit-sent', 'TxPipeline.state_gray@%s' % S, bad is None, (bad[2].loc if bad and bad[2] is not None else tfsm.state_loc[S]),
+               'while the bit stuffer announces a stuffed bit for the next bit time (o_will_stall) the pipeline must stay in the '
+               'data phase (state_gray 0b11) for that bit time, also when the payload has just run out -- otherwise the output '
+               'enable drops one bit early and the packet ends six 1s + SE0 without the mandatory stuffed 0; next state_gray is '
+               '%s when %s' % (bad and bad[1], bad and bad[0]))
+    ctx.need(n_ws >= 1, 'a TxPipeline state that decides on bitstuff.o_will_stall while in the data phase')
     # ---------------------------------------------------------------- (e2) byte-accept strobe survives a stuff stall
     # TxPipeline consumes shifter.o_get under ~stall (stall = a stuffed bit is being inserted) and enables the shifter
     # with ~stall; so the shifter must only update o_get while enabled, otherwise a load that coincides with a stall
